@@ -67,7 +67,14 @@ def parseU64 (s : String) : Option Nat :=
 
 /-- the channel test of `UnsafeProtocolChainConfig::validate` -/
 def channelOk (ch : String) : Bool :=
-  ch.startsWith "channel-" && (parseU64 (String.ofList (ch.toList.drop 8))).isSome
+  ch.startsWith "channel-" && (ch.toList.drop 8).all Char.isDigit
+    && (parseU64 (String.ofList (ch.toList.drop 8))).isSome
+
+def MAX_PERIOD_SECONDS : Nat := 10000000000
+
+/-- `validate_period` -/
+def validatePeriod (p : Nat) : R Nat :=
+  if p > MAX_PERIOD_SECONDS then .error (genericErr "period is too long") else .ok p
 
 /-- `opt.as_ref().map(|a| validate_address(a, prefix)).transpose()` -/
 def optAddress (o : Option String) (pref : String) : R (Option String) :=
@@ -82,10 +89,11 @@ def UnsafeNative.validate (c : UnsafeNative) : R NativeCfg := do
   let vp ← validatePrefix c.validatorPrefix
   let td ← validateDenom c.tokenDenom
   let vals ← validateAddresses c.validators c.validatorPrefix
+  let ub ← validatePeriod c.unbondingPeriod
   let staker ← validateAddress c.staker c.accountPrefix
   let rc ← validateAddress c.rewardCollector c.accountPrefix
   pure { accountPrefix := ap, validatorPrefix := vp, tokenDenom := td, validators := vals,
-         unbondingPeriod := c.unbondingPeriod, staker := staker, rewardCollector := rc }
+         unbondingPeriod := ub, staker := staker, rewardCollector := rc }
 
 def UnsafeProto.validate (c : UnsafeProto) : R ProtoCfg := do
   ensure (channelOk c.channel) .ibcChannelConfigWrong
